@@ -10,7 +10,7 @@ use serde_json::{json, Value};
 const BASE: u64 = 0x1000;
 const STK: u64 = 0x20000;
 
-const ITEMS: [(&str, &[u8]); 14] = [
+const ITEMS: [(&str, &[u8]); 15] = [
     ("mov rax,0x1234", &[0x48, 0xC7, 0xC0, 0x34, 0x12, 0, 0]),
     ("add rax,rbx", &[0x48, 0x01, 0xD8]),
     ("adc rbx,rcx", &[0x48, 0x11, 0xCB]),
@@ -27,6 +27,12 @@ const ITEMS: [(&str, &[u8]); 14] = [
     ("mov rax,[rbx]", &[0x48, 0x8B, 0x03]),
     ("mov [rbx],rcx", &[0x48, 0x89, 0x0B]),
     ("jmp rbx", &[0xFF, 0xE3]),
+    // a heap that really grows: whatever a machine is granted must not depend on what other
+    // machines of the process were granted before it
+    (
+        "brk(0); brk(+64 KiB)",
+        &[0x48, 0xC7, 0xC0, 12, 0, 0, 0, 0x48, 0xC7, 0xC7, 0, 0, 0, 0, 0x0F, 0x05, 0x48, 0x8D, 0xB8, 0x00, 0x00, 0x01, 0x00, 0x48, 0xC7, 0xC0, 12, 0, 0, 0, 0x0F, 0x05],
+    ),
 ];
 
 pub const VARIANTS: usize = 6;
@@ -135,12 +141,40 @@ impl Digest {
     }
 }
 
-fn run_one(code: &[u8], variant: usize) -> Digest {
+/// `interleaved`: the machine is driven by single steps that alternate with the steps of a
+/// decoy machine running another program (state shared between machines of one process - a
+/// scratch buffer, a decode cache - shows only then); otherwise by execute().
+fn run_one(code: &[u8], variant: usize, interleaved: bool) -> Digest {
     let mut ax = build(code, variant);
-    let result = match crate::emu::execute(&mut ax) {
-        Ok(Ok(())) => "finished".to_string(),
-        Ok(Err(e)) => format!("Err({e})"),
-        Err(p) => format!("Panic({}: {})", p.loc, p.msg),
+    let result = if interleaved {
+        let decoy_code: Vec<u8> = [0x48u8, 0xC7, 0xC0, 0x77, 0, 0, 0, 0x50, 0x5B, 0x48, 0x01, 0xD8, 0xEB, 0xF2].to_vec();
+        let mut decoy = build(&decoy_code, (variant + 1) % 4);
+        let mut out = None;
+        for _ in 0..64 {
+            let _ = crate::emu::step(&mut decoy);
+            match crate::emu::step(&mut ax) {
+                StepOut::Ok(true) => {}
+                StepOut::Ok(false) => {
+                    out = Some("finished".to_string());
+                    break;
+                }
+                StepOut::Err(e) => {
+                    out = Some(format!("Err({e})"));
+                    break;
+                }
+                StepOut::Panic(p) => {
+                    out = Some(format!("Panic({}: {})", p.loc, p.msg));
+                    break;
+                }
+            }
+        }
+        out.unwrap_or_else(|| "still running after 64 steps".to_string())
+    } else {
+        match crate::emu::execute(&mut ax) {
+            Ok(Ok(())) => "finished".to_string(),
+            Ok(Err(e)) => format!("Err({e})"),
+            Err(p) => format!("Panic({}: {})", p.loc, p.msg),
+        }
     };
     let mut regs = crate::common::Fp::new();
     let written: Vec<SR> = if variant < 2 || variant >= 4 {
@@ -196,26 +230,77 @@ fn run_one(code: &[u8], variant: usize) -> Digest {
 }
 
 /// Enumerates every case; `f(case index, names, variant, digests of 3 machines)`.
-pub fn enumerate(maxlen: usize, mut f: impl FnMut(usize, &[&'static str], usize, &[Digest; 3], &[u8])) {
-    let mut k = 0usize;
+pub fn enumerate(maxlen: usize, reverse: bool, stop_at: Option<usize>, mut f: impl FnMut(usize, &[&'static str], usize, &[Digest; 3], &[u8])) {
+    // case index of (len, idx, variant) in forward order
+    let mut base = vec![0usize; maxlen + 2];
     for len in 1..=maxlen {
-        let total = ITEMS.len().pow(len as u32);
-        for idx in 0..total {
-            let (code, names) = program(idx, len);
-            for variant in 0..VARIANTS {
-                let d = [run_one(&code, variant), run_one(&code, variant), run_one(&code, variant)];
-                f(k, &names, variant, &d, &code);
-                k += 1;
+        base[len + 1] = base[len] + ITEMS.len().pow(len as u32) * VARIANTS;
+    }
+    let mut one = |len: usize, idx: usize, variant: usize| {
+        let (code, names) = program(idx, len);
+        // third machine: stepped, interleaved with a decoy machine
+        let d = [run_one(&code, variant, false), run_one(&code, variant, false), run_one(&code, variant, true)];
+        let k = base[len] + idx * VARIANTS + variant;
+        f(k, &names, variant, &d, &code);
+        Some(k) == stop_at
+    };
+    if !reverse {
+        for len in 1..=maxlen {
+            for idx in 0..ITEMS.len().pow(len as u32) {
+                for variant in 0..VARIANTS {
+                    if one(len, idx, variant) {
+                        return;
+                    }
+                }
+            }
+        }
+    } else {
+        // the second process meets the cases in the opposite order: a case that comes early in
+        // one process comes late in the other, so state that accumulates per process (a global
+        // counter, budget or cache) gives the two runs of a case different histories
+        for len in (1..=maxlen).rev() {
+            for idx in (0..ITEMS.len().pow(len as u32)).rev() {
+                for variant in (0..VARIANTS).rev() {
+                    if one(len, idx, variant) {
+                        return;
+                    }
+                }
             }
         }
     }
 }
 
+/// Confirmation mode (fresh process): runs the enumeration in the given order up to case `k`
+/// and prints the digests of that case: `h0 h1 h2 <diff 0/1> <diff 0/2>`.
+pub fn one_case(maxlen: usize, k: usize, reverse: bool) -> i32 {
+    let mut line = String::new();
+    enumerate(maxlen, reverse, Some(k), |kk, _n, _v, d, _c| {
+        if kk == k {
+            line = format!("{} {} {} {} {}", d[0].hash(), d[1].hash(), d[2].hash(), d[0].diff(&d[1]), d[0].diff(&d[2]));
+        }
+    });
+    println!("{line}");
+    0
+}
+
+fn case_of(k: usize, maxlen: usize) -> (usize, usize, usize) {
+    let mut base = 0usize;
+    for len in 1..=maxlen {
+        let n = ITEMS.len().pow(len as u32) * VARIANTS;
+        if k < base + n {
+            let r = k - base;
+            return (len, r / VARIANTS, r % VARIANTS);
+        }
+        base += n;
+    }
+    (maxlen, 0, 0)
+}
+
 /// Child mode (fresh process, fresh hash seeds): prints one digest hash per case.
 pub fn child(maxlen: usize, out: &str) -> i32 {
-    let mut v: Vec<u8> = vec![];
-    enumerate(maxlen, |_k, _n, _v, d, _c| {
-        v.extend_from_slice(&d[0].hash().to_le_bytes());
+    let mut v: Vec<u8> = vec![0u8; n_cases(maxlen) * 8];
+    enumerate(maxlen, true, None, |k, _n, _v, d, _c| {
+        v[k * 8..k * 8 + 8].copy_from_slice(&d[0].hash().to_le_bytes());
     });
     match std::fs::write(out, v) {
         Ok(()) => 0,
@@ -231,37 +316,42 @@ pub fn run(tier: Tier) -> i32 {
     let _ = std::fs::create_dir_all(&scratch);
     let outf = scratch.join(format!("c20.{}.bin", std::process::id()));
     let exe = std::env::current_exe().expect("own path");
-    let st = std::process::Command::new(&exe)
-        .args(["c20-child", &maxlen.to_string(), outf.to_str().unwrap()])
-        .status();
-    match st {
-        Ok(s) if s.success() => {}
-        other => crate::common::machinery_error(&format!("second-process pass failed: {other:?}")),
-    }
-    let other: Vec<u64> = std::fs::read(&outf)
-        .unwrap_or_default()
-        .chunks_exact(8)
-        .map(|c| u64::from_le_bytes(c.try_into().unwrap()))
-        .collect();
-    let _ = std::fs::remove_file(&outf);
-    let other_c = other.clone();
+    // A disagreement is confirmed in fresh processes: the histories that produced it (this
+    // process going forward, the second one going backward) are re-created up to the case, each
+    // in its own process, because what a machine does may - that is the violation - depend on
+    // what the process did before.
+    let exe2 = exe.clone();
     let confirm_fn = move |w: &Value| -> Result<Vec<String>, String> {
-        let other = &other_c;
         let k = w["case"].as_u64().ok_or("no case")? as usize;
-        let mut keys = vec![];
-        enumerate(maxlen, |kk, _names, variant, d, _code| {
-            if kk == k {
-                let vname = vname(variant);
-                for m in 1..3 {
-                    if d[m] != d[0] {
-                        keys.push(format!("determinism|in-process|{vname}|{}", d[0].diff(&d[m])));
-                    }
-                }
-                if other.get(k) != Some(&d[0].hash()) {
-                    keys.push(format!("determinism|cross-process|{vname}"));
-                }
+        let variant = case_of(k, maxlen).2;
+        let vname = vname(variant);
+        let run = |reverse: bool| -> Result<Vec<String>, String> {
+            let out = std::process::Command::new(&exe2)
+                .args(["c20-one", &maxlen.to_string(), &k.to_string(), if reverse { "1" } else { "0" }])
+                .output()
+                .map_err(|e| format!("confirmation process: {e}"))?;
+            if !out.status.success() {
+                return Err(format!("confirmation process failed: {:?}", out.status));
             }
-        });
+            let txt = String::from_utf8_lossy(&out.stdout).to_string();
+            let line = txt.lines().last().unwrap_or("").to_string();
+            let parts: Vec<String> = line.split(' ').map(|x| x.to_string()).collect();
+            if parts.len() != 5 {
+                return Err(format!("confirmation process printed {line:?}"));
+            }
+            Ok(parts)
+        };
+        let fwd = run(false)?;
+        let bwd = run(true)?;
+        let mut keys = vec![];
+        for d in [&fwd[3], &fwd[4]] {
+            if d != "none" {
+                keys.push(format!("determinism|in-process|{vname}|{d}"));
+            }
+        }
+        if fwd[0] != bwd[0] {
+            keys.push(format!("determinism|cross-process|{vname}"));
+        }
         keys.sort();
         keys.dedup();
         // nondeterminism is the violation itself: which other observables differ may vary from
@@ -273,12 +363,34 @@ pub fn run(tier: Tier) -> i32 {
     if let Some(art) = crate::common::replay_artefact() {
         return crate::common::finish_replay("C20", &art, &|ws| ws.iter().map(|w| confirm_fn(w)).collect());
     }
+    // the second process runs while this one enumerates (it is joined before the comparison)
+    let child = std::process::Command::new(&exe)
+        .args(["c20-child", &maxlen.to_string(), outf.to_str().unwrap()])
+        .spawn();
+    let mut child = match child {
+        Ok(c) => c,
+        Err(e) => crate::common::machinery_error(&format!("second-process pass could not start: {e}")),
+    };
+    let join_child = |child: &mut std::process::Child| -> Vec<u64> {
+        match child.wait() {
+            Ok(s) if s.success() => {}
+            other => crate::common::machinery_error(&format!("second-process pass failed: {other:?}")),
+        }
+        let v: Vec<u64> = std::fs::read(&outf)
+            .unwrap_or_default()
+            .chunks_exact(8)
+            .map(|c| u64::from_le_bytes(c.try_into().unwrap()))
+            .collect();
+        let _ = std::fs::remove_file(&outf);
+        v
+    };
     let mut cases = 0u64;
     let mut distinct = std::collections::HashSet::new();
     let mut samples: Vec<Value> = vec![];
     let mut findings = crate::common::Findings::new();
     let mut transitions = 0u64;
-    enumerate(maxlen, |k, names, variant, d, code| {
+    let mut mine: Vec<u64> = vec![];
+    enumerate(maxlen, false, None, |k, names, variant, d, code| {
         cases += 1;
         transitions += d[0].count * 4;
         distinct.insert(d[0].hash());
@@ -294,17 +406,23 @@ pub fn run(tier: Tier) -> i32 {
                 findings.add(&key, || format!("two machines built the same way disagree on {what} after {:?}: {:?} vs {:?}", names, crate::emu::first_line(&d[0].result), crate::emu::first_line(&d[m].result)), || w(&key));
             }
         }
-        match other.get(k) {
-            Some(h) if *h == d[0].hash() => {}
-            Some(_) => {
-                let key = format!("determinism|cross-process|{vname}");
-                findings.add(&key, || format!("a second process reaches a different final state / error text for {:?}", names), || w(&key));
-            }
-            None => crate::common::machinery_error("second-process pass produced too few digests"),
+        if mine.len() <= k {
+            mine.resize(k + 1, 0);
         }
+        mine[k] = d[0].hash();
     });
+    let other = join_child(&mut child);
     if other.len() as u64 != cases {
         crate::common::machinery_error(&format!("second process enumerated {} cases, this one {}", other.len(), cases));
+    }
+    for (k, h) in mine.iter().enumerate() {
+        if other[k] != *h {
+            let (len, idx, variant) = case_of(k, maxlen);
+            let (code, names) = program(idx, len);
+            let vname = vname(variant);
+            let key = format!("determinism|cross-process|{vname}");
+            findings.add(&key, || format!("a second process reaches a different final state / error text for {:?}", names), || json!({"engine": "c20", "key": key, "case": k, "program": names, "bytes": crate::common::hex(&code), "variant": variant}));
+        }
     }
     for (k, f) in findings.map {
         run.findings.merge_one(k, Finding { ..f });
@@ -314,7 +432,7 @@ pub fn run(tier: Tier) -> i32 {
     run.cov("traces_validated_against_impl", json!(cases * 4));
     run.cov("evaluations", json!(cases));
     run.cov("distinct_nontrivial", json!(distinct.len()));
-    run.cov("rule", json!("one case = (program of <= L items over 14 instructions/idioms incl. brk via the built-in handler, a division whose divisor may be zero, int3, a load, a store and a jump through RBX that fault when RBX is unmapped; variant A: every register written, variant B: only RAX RBX RCX RSP written, the alphabet never reads another register before writing it, variant C: every general-purpose register holds the same unmapped address, variant D: as A with the stack and the argument strings placed by init_stack and init_stack_program_start next to code at 0x1000); every case runs on 3 independently constructed machines in this process and once in a separately exec'd process; digests of registers, flags, every area, count, trace, call stack, their renderings, result and error text must be equal; distinct_nontrivial = distinct digests"));
+    run.cov("rule", json!("one case = (program of <= L items over 15 instructions/idioms incl. brk via the built-in handler (query, and growth by 64 KiB), a division whose divisor may be zero, int3, a load, a store and a jump through RBX that fault when RBX is unmapped; variant A: every register written, variant B: only RAX RBX RCX RSP written, the alphabet never reads another register before writing it, variant C: every general-purpose register holds the same unmapped address, variant D: as A with the stack and the argument strings placed by init_stack and init_stack_program_start next to code at 0x1000); every case runs on 3 independently constructed machines in this process (two by execute(), the third by single steps interleaved with the steps of a decoy machine) and once in a separately exec'd process that meets the cases in the opposite order; digests of registers, flags, every area, count, trace, call stack, their renderings, result and error text must be equal; distinct_nontrivial = distinct digests"));
     run.cov("exhaustive", json!(true));
     run.cov("program_max_length", json!(maxlen));
     run.cov("machines_per_case", json!(4));
